@@ -130,5 +130,6 @@ pub fn scenario(role: Role, geo: (usize, u16, usize), seed: u64, handshake: bool
         dally: flags.1,
         pre_existing: false,
         fsize_limit: None,
+        peer_leaves: false,
     }
 }
